@@ -54,6 +54,15 @@ static Plan gen_history(Rng& r, int tier, std::string const& focus)
         if (p.fk == F_ZERO || p.fk == F_CONST) p.fk = F_POLY;
     }
     add_extreme_draws(r, p, 0.5);
+    if (p.integ != PLAIN && p.calls.size() >= 2 && r.chance(0.12))
+    {
+        // the user changes the adaptation parameters between two runs: a new checkpoint with the new
+        // parameters takes over the results (aux = {iterations before the change, what changes})
+        p.variant = 11;
+        p.aux.assign(2, 0);
+        p.aux[0] = 1 + r.below(p.calls.size() - 1);
+        p.aux[1] = r.next() >> 8;
+    }
     if (tier && r.chance(0.000004))
     {
         // more calls than fit into 32 bits: counters, N (N - 1) and friends
@@ -86,6 +95,35 @@ static void exec_history(Plan const& p, Report& rep)
         ctl.log_text = false;
         rep.probes["giant-run-2^32"]++;
     }
+    if (p.variant == 11 && p.aux.size() >= 2 && p.aux[0] >= 1 && p.aux[0] < p.calls.size())
+    {
+        std::vector<u64> const first(p.calls.begin(), p.calls.begin() + p.aux[0]);
+        std::vector<u64> const second(p.calls.begin() + p.aux[0], p.calls.end());
+        RunOut const o1 = s.run(first, ctl);
+        rep.nontrivial = true;
+        if (o1.threw || o1.killed || o1.results != first.size()) return;
+        oracle_c07_share(p, s.w->view(), rep);
+
+        Plan q = p;
+        static ld const alphas[] = {0.0L, 0.2L, 0.5L, 1.0L, 1.5L, 3.0L};
+        static ld const betas[] = {0.125L, 0.25L, 0.5L, 0.75L, 1.0L};
+        u64 const h = p.aux[1];
+        q.alpha = alphas[h % 6];
+        if (q.alpha == p.alpha) q.alpha = alphas[(h + 1) % 6];
+        q.beta = betas[(h / 6) % 5];
+        if (q.beta == p.beta) q.beta = betas[(h / 6 + 1) % 5];
+        q.minw = ((h / 30) % 2) ? 0.0L : static_cast<ld>(static_cast<float>(0.5L / p.chan * (static_cast<ld>(mix2(h, 3) >> 11) / 9007199254740992.0L)));
+
+        Session s2(q, rep);
+        s2.w = std::move(s.w);
+        if (!s2.w->transplant(q)) return;
+        rep.probes["adaptation-parameters-changed-between-runs"]++;
+        RunCtl const c2 = ctl_from_plan(q);
+        RunOut const o2 = s2.run(second, c2);
+        if (o2.threw) rep.fail("C12", "exception", key_of(q), o2.what);
+        return;
+    }
+
     RunOut const out = s.run(p.calls, ctl);
     if (out.threw) rep.fail("C12", "exception", key_of(p), out.what);
     ChkptView const v = s.w->view();
@@ -264,6 +302,25 @@ static void exec_lattice(Plan const& p, Report& rep)
         for (u64 c : p.aux) base_pos += c * per_call;
     }
 
+    // the state the lattice iteration starts from may have passed through text (a restarted program),
+    // and the restarted program may have rolled the checkpoint back to its first state
+    {
+        u64 const rt = mix2(p.fseed, 31337) % 6;
+        bool const serialisable = (p.integ == PLAIN) || s.w->nresults() != 0 || (p.integ == VEGAS && p.grid == 1) ||
+            (p.integ == MULTI && p.wts == 1);
+        if (rt < 2 && serialisable && !(p.variant == 4 && p.integ != MULTI))
+        {
+            if (!s.reload("lattice") && !s.reload_usable) return;
+            rep.probes["state-through-text"]++;
+            if (rt == 1 && s.w->nresults() != 0)
+            {
+                if (s.w->rollback(0) != 0) return;
+                base_pos = 0;
+                rep.probes["state-through-text-and-rollback"]++;
+            }
+        }
+    }
+
     ChkptView const before = s.w->view();
 
     ctl.genmode = 1;
@@ -354,6 +411,13 @@ static void exec_lattice(Plan const& p, Report& rep)
     u64 cnt = 0;
     for (auto const& rec : out.ranks[0].calls)
     {
+        if (!rec.entered)
+        {
+            // a point of the lattice the integrand never saw: the average is over the whole hypercube
+            rep.fail("C01", "lattice-point-dropped", key, fmt("call %llu (channel %u) never reached the integrand",
+                (unsigned long long) rec.idx, rec.channel));
+            return;
+        }
         ld w = 0;
         if (!call_weight(out.ranks[0], rec, rv, w)) continue;
         ld const val = rec.f * w;
@@ -987,13 +1051,25 @@ static void exec_select(Plan const& p, Report& rep)
     u64 const per_call = p.dims + 1;
     u64 const usage = (p.eng == E_SCRIPT32 && p.nt != NT_F) ? 2 : 1;
     u64 const ncalls = p.calls[0];
-    for (u64 c = 0; c != ncalls && c < vals.size(); ++c)
+    // in a seeded order and more than once: the selection is a function of the number alone, whatever
+    // was selected before it
+    std::vector<ld> seq;
+    {
+        Rng sr(mix2(p.fseed, 4242));
+        while (seq.size() < ncalls)
+        {
+            std::vector<ld> round(vals);
+            for (std::size_t k = round.size(); k > 1; --k) std::swap(round[k - 1], round[sr.below(k)]);
+            seq.insert(seq.end(), round.begin(), round.end());
+        }
+    }
+    for (u64 c = 0; c != ncalls; ++c)
     {
         if (usage != 1) break;
         Fault f;
         f.kind = FLT_RNG_FORCE;
         f.a = c * per_call + p.dims;
-        ld const u = vals[c];
+        ld const u = seq[c];
         f.v = (p.eng == E_SCRIPT64) ? static_cast<u64>(std::ldexp(u, 64))
                                     : (static_cast<u64>(std::ldexp(u, 32)) << 32);
         ctl.forced.push_back(f);
@@ -1011,6 +1087,16 @@ static void exec_select(Plan const& p, Report& rep)
         {
             ld const u = canonical_from_raw64(p.nt, rec.last_raw);
             if (!check(u, rec.channel, "multi_channel")) return;
+            // the same number given to a fresh selector
+            u64 const alone = probe_select(p.nt, alpha, rec.last_raw);
+            if (alone != rec.channel)
+            {
+                rep.fail("C09", "selection-depends-on-history", key, fmt(
+                    "selector %.21Lg gives channel %llu inside the iteration and channel %llu on its own", u,
+                    (unsigned long long) rec.channel, (unsigned long long) alone));
+                return;
+            }
+            rep.probes["selection-compared-with-fresh-selector"]++;
         }
     }
 
@@ -1403,7 +1489,41 @@ static void exec_protocol(Plan const& p, Report& rep)
     if (!monotone) rep.probes["non-monotone-errors"]++;
 
     std::vector<u64> rest(q.calls.begin() + done, q.calls.end());
+
+    if (q.mode == 1 && (p.aux[0] / 3) % 3 == 0)
+    {
+        // a disk that fails while the callback writes: the file cannot be opened, writes fail or come
+        // up short. Whether the file could be written has no say in when the run ends.
+        Rng fr(mix2(p.aux[0], 991));
+        for (u64 n = 0; n != rest.size() + 1; ++n)
+        {
+            if (fr.chance(0.5))
+            {
+                Fault f;
+                f.kind = FLT_IO_ERROR;
+                f.a = (1ULL << 62) + n;
+                f.b = fr.chance(0.5) ? 13 : 28;   // EACCES / ENOSPC
+                c3.fs_faults.push_back(f);
+            }
+        }
+        for (u64 e = 0; e != 12 * (rest.size() + 1); ++e)
+        {
+            if (fr.chance(0.1))
+            {
+                Fault f;
+                u64 const k = fr.below(4);
+                f.kind = (k == 0) ? FLT_SHORT_WRITE : (k == 1) ? FLT_EINTR : FLT_IO_ERROR;
+                f.a = e;
+                f.b = (f.kind == FLT_IO_ERROR) ? (fr.chance(0.5) ? 28 : 5) : fr.next();
+                c3.fs_faults.push_back(f);
+            }
+        }
+    }
+
     RunOut const out = s.run(rest, c3);
+    rep.faults["short-write"] += fs().n_short;
+    rep.faults["eintr"] += fs().n_eintr;
+    rep.faults["io-error"] += fs().n_ioerr;
     if (out.threw || out.killed) return;
     rep.probes[want < rho_lib.size() ? "target-reached" : "target-not-reached"]++;
 
